@@ -116,11 +116,11 @@ func (fr *frame) staticCall(f *ssa.Function, bindings []Val, in ssa.Instruction,
 		if f.Parent() == nil {
 			fc.derived[key] = true
 		}
-		return fr.inline(f, args, bindings, st, reach, pos)
+		return fr.inline(f, args, bindings, st, reach, pos, in)
 	}
 	if f.Blocks != nil && strings.HasPrefix(key, "github.com/google/badwolf") && fc.c != nil && fc.c.Opts["inline"] != "" && strings.Contains(" "+fc.c.Opts["inline"]+" ", " "+f.Name()+" ") {
 		fc.derived[key] = true
-		return fr.inline(f, args, bindings, st, reach, pos)
+		return fr.inline(f, args, bindings, st, reach, pos, in)
 	}
 	return fr.unknownCall(key, f.Signature, st, reach, pos)
 }
@@ -515,7 +515,7 @@ func (fr *frame) checkRecursion(ct *FuncContract, env *Env, reach string, pos to
 }
 
 // inline executes the body of a closure / trivial function in place.
-func (fr *frame) inline(f *ssa.Function, args, bindings []Val, st *State, reach string, pos token.Pos) Val {
+func (fr *frame) inline(f *ssa.Function, args, bindings []Val, st *State, reach string, pos token.Pos, in ssa.Instruction) Val {
 	fc := fr.fc
 	if fc.inlineDepth > 6 {
 		fc.unsupported("inlining depth exceeded at %s", f.Name())
@@ -523,6 +523,10 @@ func (fr *frame) inline(f *ssa.Function, args, bindings []Val, st *State, reach 
 	}
 	sub := fc.newFrame(f, false)
 	sub.old = fr.old
+	sub.parent = fr
+	if in != nil {
+		sub.callBlock = in.Block()
+	}
 	if len(sub.loops) > 0 && (fc.c == nil || fc.c.InlineLoops[f.Name()] == nil) {
 		fc.unsupported("inlined function %s contains a loop (the caller's contract gives no `loop %s:<n>` invariants)", fnKey(f), f.Name())
 		return fr.unknownCall(fnKey(f), f.Signature, st, reach, pos)
@@ -543,6 +547,15 @@ func (fr *frame) inline(f *ssa.Function, args, bindings []Val, st *State, reach 
 	if len(sub.rets) == 0 {
 		// never returns normally
 		return fr.freshResults(f.Signature, st, "r_inl")
+	}
+	// the caller continues only if the inlined body took one of its return paths (with loops in the
+	// body this carries the loop exit conditions into the caller's path condition)
+	{
+		var rc []string
+		for _, r := range sub.rets {
+			rc = append(rc, r.cond)
+		}
+		fc.factIf(reach, or(rc...))
 	}
 	if len(sub.rets) == 1 {
 		*st = *sub.rets[0].st
